@@ -95,6 +95,111 @@ def _binary_restored(obj, back, label):
     return []
 
 
+def _structure_restored(obj, back, label):
+    """'restores the same object': wherever the original holds a dataclass instance the rebuilt object holds an instance of the same
+    class (to_json() cannot show a nested object left as a plain dict: it serialises to itself), and no two binary streams of the rebuilt
+    object are one and the same stream object."""
+    probs = []
+
+    def walk(a, b, path, depth):
+        if depth > 40 or probs:
+            return
+        if dataclasses.is_dataclass(a) and not isinstance(a, type):
+            if type(b) is not type(a):
+                probs.append({"sym": "roundtrip-nested-object-not-restored", "detail": f"{label}: {path} was {type(a).__name__}, is {type(b).__name__} after from_json"})
+                return
+            for f in dataclasses.fields(a):
+                walk(getattr(a, f.name), getattr(b, f.name, None), f"{path}.{f.name}", depth + 1)
+        elif isinstance(a, dict) and isinstance(b, dict):
+            for k, v in a.items():
+                if k in b:
+                    walk(v, b[k], f"{path}.{k}", depth + 1)
+        elif isinstance(a, (list, tuple)) and isinstance(b, (list, tuple)):
+            for i, (x, y) in enumerate(zip(a, b)):
+                walk(x, y, f"{path}[{i}]", depth + 1)
+    walk(obj, back, "$", 0)
+    seen = {}
+
+    def streams(o, path, depth):
+        if depth > 40:
+            return
+        if isinstance(o, io.BytesIO):
+            if id(o) in seen and seen[id(o)] != path:
+                probs.append({"sym": "roundtrip-streams-shared", "detail": f"{label}: {seen[id(o)]} and {path} are one stream object after from_json"})
+            seen[id(o)] = path
+        elif dataclasses.is_dataclass(o) and not isinstance(o, type):
+            for f in dataclasses.fields(o):
+                streams(getattr(o, f.name), f"{path}.{f.name}", depth + 1)
+        elif isinstance(o, dict):
+            for k, v in o.items():
+                streams(v, f"{path}.{k}", depth + 1)
+        elif isinstance(o, (list, tuple)):
+            for i, v in enumerate(o):
+                streams(v, f"{path}[{i}]", depth + 1)
+    orig_ids = {}
+    streams(obj, "$", 0)
+    shared_in_original = any(p["sym"] == "roundtrip-streams-shared" for p in probs)
+    probs[:] = [p for p in probs if p["sym"] != "roundtrip-streams-shared"]
+    seen.clear()
+    if not shared_in_original:
+        streams(back, "$", 0)
+    return probs[:1]
+
+
+def _consume_streams(o, depth=0):
+    """Read every binary stream of a rebuilt object to its end and close it (what a consumer does)."""
+    if depth > 40:
+        return
+    if isinstance(o, io.BytesIO):
+        try:
+            o.read()
+            o.close()
+        except Exception:
+            pass
+    elif dataclasses.is_dataclass(o) and not isinstance(o, type):
+        for f in dataclasses.fields(o):
+            _consume_streams(getattr(o, f.name), depth + 1)
+    elif isinstance(o, dict):
+        for v in o.values():
+            _consume_streams(v, depth + 1)
+    elif isinstance(o, (list, tuple)):
+        for v in o:
+            _consume_streams(v, depth + 1)
+
+
+def _restore_twice(json_text, first_back, label):
+    """from_json of the same JSON a second time, after a consumer has read and closed the streams of the first rebuilt object: the
+    second object's streams must be fresh (open, at position 0, with the original bytes)."""
+    from sharepoint2text.parsing.extractors.data_types import ExtractionInterface
+    want = _binary_state(first_back)
+    _consume_streams(first_back)
+    try:
+        again = ExtractionInterface.from_json(json.loads(json_text))
+        got = {}
+
+        def walk(o, path, depth):
+            if depth > 40:
+                return
+            if isinstance(o, io.BytesIO):
+                got[path] = ("closed", b"") if o.closed else (("BytesIO", o.read()) if o.tell() == 0 else ("not-at-0", b""))
+            elif dataclasses.is_dataclass(o) and not isinstance(o, type):
+                for f in dataclasses.fields(o):
+                    walk(getattr(o, f.name), f"{path}.{f.name}", depth + 1)
+            elif isinstance(o, dict):
+                for k, v in o.items():
+                    walk(v, f"{path}.{k}", depth + 1)
+            elif isinstance(o, (list, tuple)):
+                for i, v in enumerate(o):
+                    walk(v, f"{path}[{i}]", depth + 1)
+        walk(again, "$", 0)
+    except Exception as e:
+        return [{"sym": f"second-from-json-raises-{type(e).__name__}", "detail": f"{label}: {e}"[:200]}]
+    for pth, (kind, val) in got.items():
+        if pth in want and want[pth][0] == "BytesIO" and (kind, val) != want[pth]:
+            return [{"sym": "second-restore-hands-out-used-streams", "detail": f"{label}: {pth} of a second from_json of the same JSON is {kind} with {len(val)} bytes, the first restore gave {len(want[pth][1])} bytes"}]
+    return []
+
+
 def _diff_paths(a, b, path="$", out=None):
     if out is None:
         out = []
@@ -151,6 +256,7 @@ def roundtrip_problems(obj, label) -> list[dict]:
     if d:
         probs.append({"sym": "roundtrip-json-differs", "detail": f"{label}: {d[:3]}"})
     probs += _binary_restored(obj, back, label)
+    probs += _structure_restored(obj, back, label)
     # behaviour of the rebuilt object
     for acc in ("get_full_text", "get_text"):
         if hasattr(obj, acc):
@@ -200,6 +306,7 @@ def roundtrip_problems(obj, label) -> list[dict]:
                 pass
     except Exception as e:
         probs.append({"sym": f"no-binary-serialise-raises-{type(e).__name__}", "detail": f"{label}: {e}"[:200]})
+    probs += _restore_twice(s, back, label)
     return probs
 
 
@@ -403,6 +510,8 @@ def work_typed(case):
             if d:
                 out["probs"].append({"sym": "roundtrip-json-differs", "detail": f"{case['cls']}: {d[:3]}"})
             out["probs"] += _binary_restored(obj, back, case["cls"])
+            out["probs"] += _structure_restored(obj, back, case["cls"])
+            out["probs"] += _restore_twice(json.dumps(j), back, case["cls"])
     except Exception as e:
         out["probs"].append({"sym": f"from-json-raises-{type(e).__name__}", "detail": f"{case['cls']}: {e}"[:300]})
     try:
